@@ -45,6 +45,11 @@ RULES['bool_read'] = [('D8', [(r'template<>\nbool Option<bool>::read\(const char
                               (r'const auto \*const opt = find_option\(in\)', 'const GenericOption * opt = find_option(in)', 'auto of GenericOption* (top-level const of the local dropped for rule D3)'),
                               (r'auto &bopt = \*static_cast<const Option<bool> \*>\(opt\);', 'const Option_bool &bopt = *static_cast<const Option_bool *>(opt);', 'Option<bool> -> shell')]),
                       ('D3', None)]
+RULES['read_enum_iarf'] = [('D4', None),
+                          ('D8', [(r'bool read_enum\(const char \*in, Option<T> &out\)', 'bool read_enum_iarf(const char *in, Option_iarf &out)', 'instantiation T = iarf_e'),
+                                  (r'const auto \*const opt = find_option\(in\)', 'const GenericOption * opt = find_option(in)', 'auto of GenericOption* (top-level const of the local dropped for rule D3)'),
+                                  (r'auto &topt = \*static_cast<const Option<T> \*>\(opt\);', 'const Option_iarf &topt = *static_cast<const Option_iarf *>(opt);', 'Option<T> -> shell', True)]),
+                          ('D3', None)]
 ENV = ['find_option/find_option_contract', 'c_warn/c_warn_contract', 'c_warn_value/c_warn_value_contract', 'c_convert_string_bool/c_convert_string_bool_contract']
 ASSUMED = ['strtol: trusted body model in opt.impl.cpp (value and end pointer of the numeral prefix; ERANGE clipping)', 'find_option_contract (registry lookup: not found, or some option of any type)',
            'c_warn / c_warn_value (one diagnostic each; the text printed must be a readable string)', 'convert_string(bool): assigns only on success (proved for the generated table under C15)']
@@ -53,7 +58,8 @@ ASSUMED = ['strtol: trusted body model in opt.impl.cpp (value and end pointer of
 def P(name, enforce, **kw):
     kw.setdefault('unwind', 6)
     kw['defines'] = list(kw.get('defines', [])) + (['VALIDATE_ARG_T=%s' % VALIDATE_ARG_T.replace(' ', '_SP_')] if ' ' not in VALIDATE_ARG_T else [])
-    return Proof(name, impl=IMPL, spec=SPEC, enforce=enforce, replace=ENV, rules=RULES, assumed=ASSUMED, drop_flags=['--conversion-check'],
+    kw.setdefault('replace', ENV)
+    return Proof(name, impl=IMPL, spec=SPEC, enforce=enforce, rules=RULES, assumed=ASSUMED, drop_flags=['--conversion-check'],
                  note='static_cast<T>(long) is an implementation-defined conversion (not undefined): conversion check off; whether it loses information is what the postcondition decides. '
                       'strchr on the literals "-" / "~!-" is unwound 6 with unwinding assertions (complete for these literals)',
                  expect=[enforce.split('/')[1] + '.postcondition'], **kw)
@@ -63,8 +69,8 @@ POL_RULES = {'process_option_line': [
     ('D8', [(r'auto args = split_args\(', 'vec_string args = split_args(', 'auto of std::vector<std::string>'),
             (r'const auto &cmd = to_lower\(', 'const std::string cmd = to_lower(', 'auto of std::string (reference to a temporary -> value)'),
             (r'const auto token = find_token_name\(', 'const E_Token token = find_token_name(', 'auto of E_Token'),
-            (r'auto       this_line_number = ', 'unsigned this_line_number = ', 'auto of unsigned'),
-            (r'const auto &include_path    = args\[1\];', 'const std::string &include_path    = args[1];', 'auto of std::string'),
+            (r'\bauto(\s*&?\s*)this_line_number(\s*)= ', r'unsigned\1this_line_number\2= ', 'auto of unsigned'),
+            (r'const auto &include_path(\s*)= args\[1\];', r'const std::string &include_path\1= args[1];', 'auto of std::string'),
             (r'auto \*const lang_arg = ', 'const char *const lang_arg = ', 'auto of const char'),
             (r'auto \*const lang_name = ', 'const char *const lang_name = ', 'auto of const char'),
             (r'auto vargs = split_args\(', 'vec_string vargs = split_args(', 'auto of std::vector<std::string>'),
@@ -92,6 +98,7 @@ def pol_proof():
                           ('type_skips_first_word', r'for \(size_t i = 1; i < args\.size\(\); \+\+i\)', 'for (size_t i = 2; i < args.size(); ++i)', 'postcondition|loop_invariant'),
                           ('version_part_unchecked', r'read_version_part\(vargs\[0\]\.c_str\(\), major\)', '((major = std::stoi(vargs[0])), true)', 'stoi|postcondition'),
                           ('file_ext_goes_on_after_unknown_language', r'''w\("file_ext: unknown language '%s'", lang_arg\);\n            break;''', '''w("file_ext: unknown language '%s'", lang_arg);''', 'postcondition|loop_invariant'),
+                          ('line_number_not_restored', r'cpd\.line_number = this_line_number;', '', 'postcondition'),
                           ('empty_include_path_loaded', r'if \(include_path\.empty\(\)\)', 'if (false)', 'postcondition')])
 
 
@@ -112,6 +119,11 @@ def all_proofs():
                    ('truncation_unchecked', r'      && static_cast<long>\(static_cast<signed>\(val\)\) == val\n', '', 'postcondition')]),
         P('read_number_unsigned', 'read_number_unsigned/read_number_unsigned_contract', canaries=3, functions=['option.cpp:read_number<unsigned>', 'option.h:validate (inlined)'],
           mutants=[('reference_not_checked', r'      if \(static_cast<long>\(static_cast<unsigned>\(rval\)\) != rval\)\n      \{\n         out.warnUnexpectedValue\(in\);\n         return\(false\);\n      \}\n', '', 'postcondition')]),
+        P('read_enum_iarf', 'read_enum_iarf/read_enum_iarf_contract', canaries=3, functions=['option.cpp:read_enum<T> (instantiated for iarf_e)'],
+          replace=ENV + ['c_convert_string_iarf/c_convert_string_iarf_contract', 'c_option_text/c_option_text_contract'],
+          mutants=[('type_check_dropped', r'if \(opt->type\(\) != out\.type\(\)\)', 'if (false)', 'postcondition'),
+                   ('reference_value_not_copied', r'out\.m_val = topt\(\);', '', 'postcondition'),
+                   ('unknown_text_silent', r'out\.warnUnexpectedValue\(in\);\n   return\(false\);', 'return(false);', 'postcondition')]),
         P('bool_read', 'w_bool_read/bool_read_contract', canaries=2, functions=['option.cpp:Option<bool>::read'],
           mutants=[('inversion_lost', r'm_val = \(invert \? !bopt\(\) : bopt\(\)\);', 'm_val = bopt();', 'postcondition')]),
     ]
